@@ -49,7 +49,9 @@ theorem ASplit.w_le {as pc t A} (h : ASplit as pc t A) : t.w ≤ as.w := by
 theorem SSplit.w_le {s pc t S} (h : SSplit s pc t S) : t.w ≤ s.sigmaMeasure := by
   cases h with
   | cutL _ _ _ _ _ _ ha => have := ha.w_le; simp only [Stmt.sigmaMeasure, Term.wtop]; omega
-  | cutR _ _ _ _ _ _ _ _ ha => have := ha.w_le; simp only [Stmt.sigmaMeasure, Term.wtop]; omega
+  | cutLR _ _ _ _ _ _ _ _ _ _ ha =>
+    have := ha.w_le; simp only [Stmt.sigmaMeasure, Term.wtop]; omega
+  | cutR _ _ _ _ _ _ _ ha => have := ha.w_le; simp only [Stmt.sigmaMeasure, Term.wtop]; omega
   | call _ _ _ ha => have := ha.w_le; simp only [Stmt.sigmaMeasure]; omega
   | _ => simp only [Stmt.sigmaMeasure, Term.wtop]; omega
 
